@@ -203,9 +203,14 @@ Section Model.
              (st : lin_cache) (id : Z) (xs : list T)
     : res (list T * list T * lin_cache) :=       (* (values, grads, cache') *)
     let x0s := map (fun x => lin_x0 N (round_lower g x)) xs in
+    (* _is_cached: `and` short-circuits, so the arrays are compared only when
+       the state ids agree; the empty cache has state id None *)
     do hit <- match st with
-              | Some (cid, cx0s, _, _) => if cid =? id then np_all_equal cx0s x0s else Ok false
-              | None => Ok false
+              | Some (cid, cx0s, _, _) =>
+                  if lin_is_cached (Some cid) id true
+                  then do ae <- np_all_equal cx0s x0s; Ok (lin_is_cached (Some cid) id ae)
+                  else Ok false
+              | None => Ok (lin_is_cached None id true)
               end;
     match hit, st with
     | true, Some (_, _, ms, bs) =>
@@ -250,8 +255,11 @@ Section Model.
     : res (list T * list T * par_cache) :=
     let x1s := map (fun x => par_x1 N (round_nearest g x)) xs in
     do hit <- match st with
-              | Some (cid, cx1s, _, _, _) => if cid =? id then np_all_equal cx1s x1s else Ok false
-              | None => Ok false
+              | Some (cid, cx1s, _, _, _) =>
+                  if par_is_cached_id (Some cid) id
+                  then do ae <- np_all_equal cx1s x1s; Ok (negb (par_is_cached_differs (negb ae)))
+                  else Ok false
+              | None => Ok (par_is_cached_id None id)
               end;
     do pst <- match hit, st with
               | true, Some (_, _, M1s, as_, bs) =>
